@@ -332,6 +332,9 @@ class Parser(object):
         self.tags = []
 
     def _build_rule_statement(self, keyword, line):
+        if not self.feature:
+            msg = u"Rule may not occur before Feature"
+            raise ParserError(msg, self.line, self.filename, line)
         name = line[len(keyword) + 1:].strip()
         rule = model.Rule(self.filename, self.line, keyword, name,
                           tags=self.tags)
@@ -374,7 +377,8 @@ class Parser(object):
         template = model.ScenarioOutline(self.filename, self.line, keyword, name,
                                          tags=self.tags)
         self.statement = template
-        self.scenario_container.add_scenario(template)
+        if self.scenario_container:
+            self.scenario_container.add_scenario(template)
 
         # -- RESET STATE:
         self.tags = []
